@@ -5,6 +5,7 @@ package main
 
 import (
 	"fmt"
+	"regexp"
 	"go/constant"
 	"go/token"
 	"go/types"
@@ -93,6 +94,7 @@ type Interp struct {
 	pools     map[*Object]*poolState
 	timeNow   int
 	mainDeferFr *frame
+	deqSkip *regexp.Regexp
 	frozenObjs []*Object
 	params map[string]int
 	callStack []*frame
